@@ -859,12 +859,14 @@ def check_oracle(gen, st):
         return None
     kind = st.oracle[0]
     r = st.real
+    # exactness is claimed for integer-valued data only: with float operands (e.g. factors of an svd) compare to round-off
+    exact_inputs = all(gen.representable(gen.vals[i]) or not isinstance(gen.vals[i], gen.yastn.Tensor) for i in st.args)
     if kind == "num":
         ref = st.oracle[1]
         got = complex(r)
         if got == ref:
             return None
-        if not _is_int_valued(np.array([ref])) and abs(got - ref) <= 1e-9 * max(1.0, abs(ref)):
+        if (not exact_inputs or not _is_int_valued(np.array([ref]))) and abs(got - ref) <= 1e-9 * max(1.0, abs(ref)):
             return None   # float operands (e.g. factors of an svd): exactness is only claimed for integer data
         return f"number {got} != dense reference {ref}"
     if kind == "dense-compact":   # apply_mask: values equal the compressed array; masked-out sectors vanish
@@ -940,7 +942,7 @@ def check_oracle(gen, st):
     if got.shape != ref.shape:
         return f"dense shape {got.shape} != reference {ref.shape}"
     if not np.array_equal(got, ref):
-        if not _is_int_valued(ref) and np.allclose(got, ref, rtol=1e-9, atol=1e-9 * max(1.0, float(np.max(np.abs(ref))) if ref.size else 1.0)):
+        if (not exact_inputs or not _is_int_valued(ref)) and np.allclose(got, ref, rtol=1e-9, atol=1e-9 * max(1.0, float(np.max(np.abs(ref))) if ref.size else 1.0)):
             return None   # float operands: compare to round-off
         return "dense values differ from the NumPy reference"
     return None
